@@ -347,6 +347,67 @@ def sym_res_reader(vc):
         check(it, 'nothing-after-the-boundary', True)
     vc.explore(fk, thunk, min_paths=2)
 
+    # func(package): reads ONE line (the stored descriptor), yields a Package built from exactly that descriptor, then one lazy
+    # reader per resource the descriptor lists -- handing a reader out reads nothing
+    fk_func = vc.under_contract('dataflows/processors/unstream.py', ['unstream', 'func'])
+
+    def thunk_func(it):
+        from pyvc.api import PyDict, SymList, SymSeq, Tree
+        from pyvc.symex import Ev
+        from contracts.common import fn_named
+        un = real_function(it, 'dataflows.processors.unstream', 'unstream')
+        f = Opaque('file', 'infile')
+        n_read = [0]
+
+        def readline(it_, o, a, k):
+            n_read[0] += 1
+            raw = Opaque('rawline', 'line%d' % n_read[0])
+            s = it_.fresh('stripped', StrS)
+            raw.attrs['call:strip'] = lambda it2, o2, a2, k2: SV(s)
+            if n_read[0] == 1:
+                # a complete checkpoint file starts with its descriptor line (stream.func writes it first: C08)
+                it_.assume(z3.Length(s) > 0)
+            it_.emit(Ev('Call', target=o, method='readline', args=(), kwargs={}, result=raw, objs=()))
+            return raw
+        f.attrs['call:readline'] = readline
+        nres = it.fresh('stored_nres', IntS)
+        it.assume(nres >= 0)
+        seq = SymSeq('stored_resources', it.fresh('stored_resources', IntS), lambda it_: (Opaque('resdesc', 'stored_resource_descriptor'), None))
+        seq.length = nres
+        stored = PyDict({'name': 'stored', 'resources': SymList(seq, [])})
+        m = it.module('dataflows.helpers.extended_json')
+        loads_calls = []
+
+        def loads(it_, a, k):
+            loads_calls.append(a[0])
+            # the first line of a checkpoint file is the descriptor (non-empty): C08 / stream.func write it first
+            return stored
+        m.attrs['ejson'].methods['loads'] = UFunc('ejson.loads', loads, False)
+        m.attrs['ejson'].methods['loads'].is_static = True
+        func = it.call(un, [f])
+
+        def r_end(it, env, cap, events):
+            ys = yields_of(events)
+            check(it, 'one-lazy-reader-per-listed-resource', len(ys) == 1 and isinstance(ys[0].obj, GenObj) and fn_named(ys[0].obj, 'res_reader'))
+            check(it, 'handing-out-a-reader-reads-nothing', not calls(events, method='readline'))
+            cover(it, 'reader-iter-reachable')
+        it.loops['func#L0'] = LoopSpec(at_start=lambda it, env, x: None, at_end=r_end,
+                                       at_exit=lambda it, env: it.path.info.__setitem__('exit_mark', len(it.path.events)))
+        it.path.info['allowed_exc'] = {}
+        n0 = len(it.path.events)
+        it.run_generator(it.call(func, [Opaque('PackageWrapper', 'upstream_package')]))
+        evs = it.path.events[n0:]
+        first_loop = [i for i, e in enumerate(evs) if e.kind in ('Pull', 'Exhausted')]
+        pre = evs[:first_loop[0]] if first_loop else evs
+        ys = yields_of(pre)
+        check(it, 'descriptor-line-read-once-before-anything-is-yielded', len(calls(pre, method='readline')) == 1 and len(loads_calls) == 1)
+        ok = len(ys) == 1 and getattr(ys[0].obj, 'kind', None) == 'Package' and ys[0].obj.attrs.get('descriptor') is stored
+        check(it, 'first-yield-is-a-package-of-exactly-the-stored-descriptor', ok)
+        if 'exit_mark' in it.path.info:
+            post = it.path.events[it.path.info['exit_mark']:]
+            check(it, 'nothing-after-the-last-reader', not yields_of(post) and not calls(post, method='readline'))
+    vc.explore(fk_func, thunk_func, min_paths=2)
+
 
 def lib_cell():
     from pyvc.api import Cell
